@@ -157,12 +157,487 @@ static void doStd(void)
 	}
 }
 
+
+/* ------------------------------------------------------------------ helpers */
+static size_t PRI_W16;      /* words per 16 bits are not integral: all numbers travel as octets */
+static void putNum(const char* k, const word* a, size_t n)
+{
+	octet* o = (octet*)xalloc(O_OF_W(n)); wwTo(o, O_OF_W(n), a); jOct(k, o, O_OF_W(n)); free(o);
+}
+static void jResBegin(const char* k) { jSep(); fprintf(vx_out, "\"%s\":[", k); }
+static void jResPut(size_t i, int v) { fprintf(vx_out, i ? ",%d" : "%d", v); }
+static void jResEnd(void) { fputc(']', vx_out); }
+
+/* ------------------------------------------------------------------ record: dates */
+static void recDate(void)
+{
+	size_t yy, v, pos, i;
+	/* all 10^6 digit strings: one line per YY, results indexed by the four digits of MMDD */
+	for (yy = 0; yy < 100; ++yy)
+	{
+		octet* d = (octet*)xalloc(6);
+		jBegin(); jStr("op", "dateYY"); d[0] = (octet)(yy / 10); d[1] = (octet)(yy % 10); jOct("yy", d, 2);
+		jResBegin("res");
+		for (v = 0; v < 10000; ++v)
+		{
+			d[2] = (octet)(v / 1000); d[3] = (octet)(v / 100 % 10); d[4] = (octet)(v / 10 % 10); d[5] = (octet)(v % 10);
+			jResPut(v, tmDateIsValid2(d) ? 1 : 0);
+		}
+		jResEnd(); jEnd(); free(d);
+	}
+	/* every non-digit octet value at each position, the other positions from base dates (valid ones, one seeded) */
+	{
+		octet bases[5][6] = { {0,0,0,1,0,1}, {2,4,0,2,2,9}, {9,9,1,2,3,1}, {0,1,0,1,0,1}, {0,0,0,0,0,0} };
+		size_t b, yr = vxRandN(100), mo = 1 + vxRandN(12), dy = 1 + vxRandN(28);
+		bases[4][0] = (octet)(yr / 10); bases[4][1] = (octet)(yr % 10); bases[4][2] = (octet)(mo / 10); bases[4][3] = (octet)(mo % 10);
+		bases[4][4] = (octet)(dy / 10); bases[4][5] = (octet)(dy % 10);
+		for (b = 0; b < 5; ++b)
+			for (pos = 0; pos < 6; ++pos)
+			{
+				octet* d = (octet*)xalloc(6);
+				jBegin(); jStr("op", "dateND"); jInt("pos", (long long)pos); jOct("base", bases[b], 6);
+				jResBegin("res");
+				for (v = 10; v < 256; ++v)
+				{
+					memcpy(d, bases[b], 6); d[pos] = (octet)v;
+					jResPut(v - 10, tmDateIsValid2(d) ? 1 : 0);
+				}
+				jResEnd(); jEnd(); free(d);
+			}
+		/* two non-digit positions at once: (pos, pos+1) with the value pairs that alias a valid field (10 a + b) */
+		for (pos = 0; pos < 6; pos += 2)
+		{
+			octet* d = (octet*)xalloc(6); size_t a, c;
+			jBegin(); jStr("op", "dateND2"); jInt("pos", (long long)pos); jOct("base", bases[1], 6);
+			jResBegin("res");
+			for (a = 0, i = 0; a < 16; ++a)
+				for (c = 0; c < 32; ++c, ++i)
+				{
+					memcpy(d, bases[1], 6); d[pos] = (octet)a; d[pos + 1] = (octet)c;
+					jResPut(i, tmDateIsValid2(d) ? 1 : 0);
+				}
+			jResEnd(); jEnd(); free(d);
+		}
+	}
+	/* tmDateIsValid(y, m, d): year classes x months 0..13 x days 0..32 */
+	{
+		static const unsigned long long YS[] = { 0, 1, 4, 100, 400, 1500, 1581, 1582, 1583, 1584, 1600, 1700, 1800, 1900, 1999, 2000, 2001,
+			2004, 2023, 2024, 2096, 2099, 2100, 2104, 2200, 2300, 2400, 9999, 10000, 65535, 65536, 400000, 2147483647ull, 2147483648ull,
+			4294967295ull, 4294967296ull, 4294967696ull, 18446744073709551215ull, 18446744073709551615ull };
+		size_t k, m, dd; unsigned long long seeded[3];
+		seeded[0] = 1583 + vxRandN(1000); seeded[1] = 2000 + 4 * vxRandN(100); seeded[2] = vxRand64() | 1;
+		for (k = 0; k < COUNT_OF(YS) + 3; ++k)
+		{
+			unsigned long long y = k < COUNT_OF(YS) ? YS[k] : seeded[k - COUNT_OF(YS)];
+			octet yo[8]; size_t j;
+			if (sizeof(size_t) < 8 && y > 0xFFFFFFFFull) continue;
+			for (j = 0; j < 8; ++j) yo[j] = (octet)(y >> (8 * j));
+			jBegin(); jStr("op", "dateYMD"); jOct("y", yo, 8);
+			jResBegin("res");
+			for (m = 0, i = 0; m < 14; ++m)
+				for (dd = 0; dd < 33; ++dd, ++i)
+					jResPut(i, tmDateIsValid((size_t)y, m, dd) ? 1 : 0);
+			jResEnd(); jEnd();
+		}
+		/* large months / days */
+		{
+			static const size_t BIG[] = { 13, 32, 255, 256, 257, 65536 + 1, 0x80000001u, (size_t)-1, (size_t)-30, ((size_t)-1) / 2 + 2 };
+			for (k = 0; k < COUNT_OF(BIG); ++k)
+			{
+				octet mo[8], dO[8]; size_t j;
+				for (j = 0; j < 8; ++j) mo[j] = (octet)((unsigned long long)BIG[k] >> (8 * j));
+				jBegin(); jStr("op", "dateBig"); jOct("m", mo, 8); jInt("rm", tmDateIsValid(2024, BIG[k], 1)); jInt("rd", tmDateIsValid(2024, 1, BIG[k])); jEnd();
+				(void)dO;
+			}
+		}
+	}
+}
+
+/* ------------------------------------------------------------------ record: primes */
+static int isPrimeW(word a)
+{
+	void* st = xalloc(priIsPrimeW_deep()); int r = priIsPrimeW(a, st); free(st); return r;
+}
+static int isPrimeN(const word* a, size_t n)
+{
+	void* st = xalloc(priIsPrime_deep(n)); int r = priIsPrime(a, n, st); free(st); return r;
+}
+/* window [base, base + cnt): priIsPrimeW, priIsPrime (n = 1 and, for 32-bit words, the natural length), next primes */
+static void primeWindow(const char* cls, unsigned long long base, size_t cnt)
+{
+	size_t i;
+	jBegin(); jStr("op", "primeWin"); jStr("f", "priIsPrimeW"); jStr("cls", cls);
+	{ octet b[8]; size_t j; for (j = 0; j < 8; ++j) b[j] = (octet)(base >> (8 * j)); jOct("a", b, 8); }
+	jResBegin("res");
+	for (i = 0; i < cnt; ++i) jResPut(i, isPrimeW((word)(base + i)));
+	jResEnd(); jEnd();
+	jBegin(); jStr("op", "primeWin"); jStr("f", "priIsPrime"); jStr("cls", cls);
+	{ octet b[8]; size_t j; for (j = 0; j < 8; ++j) b[j] = (octet)(base >> (8 * j)); jOct("a", b, 8); }
+	jResBegin("res");
+	for (i = 0; i < cnt; ++i)
+	{
+		word w[2]; unsigned long long v = base + i;
+		w[0] = (word)v; w[1] = (B_PER_W < 64) ? (word)(v >> (B_PER_W < 64 ? B_PER_W : 0)) : 0;
+		/* alternate representations: natural length / one leading zero word */
+		jResPut(i, isPrimeN(w, (i & 1) ? 2 : (w[1] ? 2 : 1)));
+	}
+	jResEnd(); jEnd();
+}
+static void nextWindow(const char* cls, unsigned long long base, size_t cnt)
+{
+	size_t i;
+	jBegin(); jStr("op", "nextWin"); jStr("f", "priNextPrimeW"); jStr("cls", cls);
+	{ octet b[8]; size_t j; for (j = 0; j < 8; ++j) b[j] = (octet)(base >> (8 * j)); jOct("a", b, 8); }
+	jSep(); fprintf(vx_out, "\"res\":[");
+	for (i = 0; i < cnt; ++i)
+	{
+		word p[1]; void* st = xalloc(priNextPrimeW_deep()); int r;
+		p[0] = 0; r = priNextPrimeW(p, (word)(base + i), st); free(st);
+		/* result as the offset p - base (or -1) */
+		fprintf(vx_out, i ? ",%lld" : "%lld", r ? (long long)((unsigned long long)p[0] - base) : -1ll);
+	}
+	fputc(']', vx_out); jEnd();
+}
+static void recPri(void)
+{
+	size_t k; unsigned long long b;
+	/* exhaustive [0, 2^16) */
+	for (b = 0; b < 65536; b += 256) primeWindow("lo16", b, 256);
+	for (b = 0; b < 65536; b += 256) nextWindow("lo16", b, 256);
+#if (B_PER_W >= 64)
+	/* around 2^32 */
+	{
+		unsigned long long half = THOROUGH ? 8192 : 512;
+		for (b = 4294967296ull - half; b < 4294967296ull + half; b += 256) primeWindow("at32", b, 256);
+		for (b = 4294967296ull - half; b < 4294967296ull + half; b += 256) nextWindow("at32", b, 256);
+		/* seeded windows in the 33..40-bit and 63-bit ranges (small ones: the oracle needs 12 bases up there) */
+		for (k = 0; k < (THOROUGH ? 8u : 2u); ++k)
+		{
+			b = (1ull << (33 + vxRandN(7))) + (vxRand64() & 0xFFFFFFFFull);
+			primeWindow("seeded40", b, 64); nextWindow("seeded40", b, 16);
+		}
+		for (k = 0; k < (THOROUGH ? 6u : 1u); ++k)
+		{
+			b = (1ull << 62) + (vxRand64() >> 3);
+			primeWindow("seeded63", b, 24); nextWindow("seeded63", b, 4);
+		}
+		/* the top of the word: next prime must not wrap */
+		primeWindow("top64", 18446744073709551615ull - 63, 64); nextWindow("top64", 18446744073709551615ull - 63, 64);
+	}
+#else
+	{
+		unsigned long long half = THOROUGH ? 8192 : 512;
+		for (b = 4294967296ull - half; b < 4294967296ull; b += 256) primeWindow("at32", b, 256);
+		for (b = 4294967296ull - half; b < 4294967296ull; b += 256) nextWindow("at32", b, 256);
+	}
+#endif
+}
+
+/* ------------------------------------------------------------------ record: binary polynomials */
+static void recPP(void)
+{
+	unsigned long long b; size_t i, k;
+	/* all polynomials of degree <= 12 (and 13 in the thorough tier) */
+	for (b = 0; b < (THOROUGH ? 16384u : 8192u); b += 256)
+	{
+		jBegin(); jStr("op", "irredWin"); jInt("a", (long long)b); jResBegin("res");
+		for (i = 0; i < 256; ++i)
+		{
+			size_t n = (i % 3 == 2) ? 2 : 1;       /* also with a leading zero word */
+			word* a = (word*)xalloc(O_OF_W(n)); void* st = xalloc(ppIsIrred_deep(n)); int r;
+			memset(a, 0, O_OF_W(n)); a[0] = (word)(b + i);
+			r = ppIsIrred(a, n, st); free(st); free(a);
+			jResPut(i, r);
+		}
+		jResEnd(); jEnd();
+	}
+	/* seeded polynomials of degree 128 / 192 / 256: x^l + m(x) as belsValM sees them, through ppIsIrred and belsValM */
+	for (k = 0; k < 3; ++k)
+	{
+		size_t len = 16 + 8 * k, cnt = THOROUGH ? 400 : 40, j;
+		for (j = 0; j < cnt; ++j)
+		{
+			octet* m = (octet*)xalloc(len); size_t n = W_OF_O(len) + 1; word* a = (word*)xalloc(O_OF_W(n));
+			void* st = xalloc(ppIsIrred_deep(n)); int r; err_t e;
+			vxRandBuf(m, len);
+			if (j % 4 == 0) m[0] |= 1;                       /* constant term present (otherwise x divides) */
+			if (j % 8 == 1) { memset(m + 4, 0, len - 4); }   /* short keys like the standard ones */
+			wwFrom(a, m, len); a[n - 1] = 1;
+			r = ppIsIrred(a, n, st); e = belsValM(m, len);
+			jBegin(); jStr("op", "belsValM"); jInt("len", (long long)len); jOct("m", m, len); jInt("irred", r); jInt("rc", e); jEnd();
+			free(st); free(a); free(m);
+		}
+	}
+}
+
+/* ------------------------------------------------------------------ exec */
+static long long clip31(unsigned long long v) { return v > 2147483647ull ? 2147483647ll : (long long)v; }
+static int isHex(const char* v) { if (*v != 'x') return 0; for (++v; *v; ++v) if (!isxdigit((unsigned char)*v)) return 0; return 1; }
+static int isDec(const char* v) { if (*v == '-') ++v; if (!*v) return 0; for (; *v; ++v) if (!isdigit((unsigned char)*v)) return 0; return 1; }
+static int isList(const char* v) { int c = 0; if (!*v) return 0; for (; *v; ++v) { if (*v == ',') c = 1; else if (!isdigit((unsigned char)*v)) return 0; } return c; }
+static void echoArgs(const vx_cmd* c)
+{
+	int i;
+	for (i = 0; i < c->n; ++i)
+	{
+		const char* k = c->k[i]; const char* v = c->v[i];
+		if (isHex(v)) { size_t n; octet* b = vxHex(c, k, &n); jOct(k, b, n); free(b); }
+		else if (isDec(v) && strlen(v) < 10) jInt(k, strtoll(v, 0, 10));
+		else if (isList(v) || (isDec(v) && strlen(v) >= 10))
+		{
+			/* list of naturals; values above 2^31 - 1 are clipped (TLC integers), which no rule of the specifications accepts */
+			const char* q = v; int first = 1; jSep(); fprintf(vx_out, "\"%s\":[", k);
+			while (*q) { unsigned long long t = strtoull(q, (char**)&q, 10); fprintf(vx_out, first ? "%lld" : ",%lld", clip31(t)); first = 0; if (*q == ',') ++q; }
+			fputc(']', vx_out);
+		}
+		else if (*v == '[' || *v == '{') { jSep(); fprintf(vx_out, "\"%s\":%s", k, v); }
+		else jStr(k, v);
+	}
+}
+/* field: hex argument copied into a zeroed buffer of cap octets */
+static void fld(octet* dst, size_t cap, const vx_cmd* c, const char* k)
+{
+	size_t n; octet* b = vxHex(c, k, &n); memset(dst, 0, cap);
+	if (b) { memcpy(dst, b, n < cap ? n : cap); free(b); }
+}
+/* list of unsigned values "1,2,3" (values above SIZE_MAX saturate); returns count */
+static size_t lst(unsigned long long* dst, size_t cap, const vx_cmd* c, const char* k)
+{
+	const char* v = vxArg(c, k); size_t n = 0;
+	memset(dst, 0, cap * sizeof(*dst));
+	if (!v) return 0;
+	while (*v && n < cap) { dst[n++] = strtoull(v, (char**)&v, 10); if (*v == ',') ++v; }
+	return n;
+}
+static word* numArg(const vx_cmd* c, const char* k, size_t n)
+{
+	size_t len; octet* b = vxHex(c, k, &len); word* w = (word*)xalloc(O_OF_W(n ? n : 1)); octet* t = (octet*)xalloc(O_OF_W(n) + 1);
+	memset(t, 0, O_OF_W(n) + 1); if (b) memcpy(t, b, len < O_OF_W(n) ? len : O_OF_W(n));
+	wwFrom(w, t, O_OF_W(n)); free(t); free(b); return w;
+}
+static void jClipArr(const char* k, const size_t* a, size_t n)
+{
+	long long t[64]; size_t i; for (i = 0; i < n; ++i) t[i] = clip31(a[i]); jIntArr(k, t, n);
+}
+static void loadBign(bign_params* p, const vx_cmd* c)
+{
+	memset(p, 0, sizeof(*p)); p->l = (size_t)vxInt(c, "l", 128);
+	fld(p->p, 64, c, "p"); fld(p->a, 64, c, "a"); fld(p->b, 64, c, "b"); fld(p->q, 64, c, "q"); fld(p->yG, 64, c, "yG"); fld(p->seed, 8, c, "seed");
+}
+static void loadG12s(g12s_params* p, const vx_cmd* c)
+{
+	memset(p, 0, sizeof(*p)); p->l = (u32)vxInt(c, "l", 256); p->n = (u32)vxInt(c, "n", 1);
+	fld(p->p, G12S_FIELD_SIZE, c, "p"); fld(p->a, G12S_FIELD_SIZE, c, "a"); fld(p->b, G12S_FIELD_SIZE, c, "b");
+	fld(p->q, G12S_ORDER_SIZE, c, "q"); fld(p->xP, G12S_FIELD_SIZE, c, "xP"); fld(p->yP, G12S_FIELD_SIZE, c, "yP");
+}
+static void loadStb99(stb99_params* p, const vx_cmd* c)
+{
+	memset(p, 0, sizeof(*p)); p->l = (size_t)vxInt(c, "l", 638); p->r = (size_t)vxInt(c, "r", 143);
+	fld(p->p, sizeof(p->p), c, "p"); fld(p->q, sizeof(p->q), c, "q"); fld(p->a, sizeof(p->a), c, "a"); fld(p->d, sizeof(p->d), c, "d");
+}
+static void loadPfok(pfok_params* p, const vx_cmd* c)
+{
+	memset(p, 0, sizeof(*p)); p->l = (size_t)vxInt(c, "l", 638); p->r = (size_t)vxInt(c, "r", 130); p->n = (size_t)vxInt(c, "n", 256);
+	fld(p->p, sizeof(p->p), c, "p"); fld(p->g, sizeof(p->g), c, "g");
+}
+static void loadDstu(dstu_params* p, const vx_cmd* c)
+{
+	unsigned long long f[4]; size_t no; size_t len; octet* b;
+	memset(p, 0, sizeof(*p)); lst(f, 4, c, "f"); p->p[0] = (u16)f[0]; p->p[1] = (u16)f[1]; p->p[2] = (u16)f[2]; p->p[3] = (u16)f[3];
+	p->A = (octet)vxInt(c, "A", 1); p->c = (u32)vxInt(c, "c", 2);
+	fld(p->B, DSTU_SIZE, c, "B"); fld(p->n, DSTU_SIZE, c, "n");
+	no = O_OF_B(p->p[0]); if (no > DSTU_SIZE) no = DSTU_SIZE;
+	b = vxHex(c, "Px", &len); if (b) { memcpy(p->P, b, len < no ? len : no); free(b); }
+	b = vxHex(c, "Py", &len); if (b) { memcpy(p->P + no, b, len < no ? len : no); free(b); }
+}
+static void loadStb99Seed(stb99_seed* s, const vx_cmd* c)
+{
+	unsigned long long t[31]; size_t i;
+	memset(s, 0, sizeof(*s)); s->l = (size_t)vxInt(c, "l", 638);
+	lst(t, 31, c, "zi"); for (i = 0; i < 31; ++i) s->zi[i] = (u16)t[i];
+	lst(t, 18, c, "di"); for (i = 0; i < 18; ++i) s->di[i] = (size_t)t[i];
+	lst(t, 10, c, "ri"); for (i = 0; i < 10; ++i) s->ri[i] = (size_t)t[i];
+}
+static void loadPfokSeed(pfok_seed* s, const vx_cmd* c)
+{
+	unsigned long long t[31]; size_t i;
+	memset(s, 0, sizeof(*s)); s->l = (size_t)vxInt(c, "l", 638);
+	lst(t, 31, c, "zi"); for (i = 0; i < 31; ++i) s->zi[i] = (u16)t[i];
+	lst(t, 20, c, "li"); for (i = 0; i < 20; ++i) s->li[i] = (size_t)t[i];
+}
+
+static void doExecLine(vx_cmd* c)
+{
+	const char* op = c->op;
+	const char* scheme = vxArg(c, "scheme");
+	int hung = 0;
+	jBegin(); jStr("op", op); echoArgs(c);
+	if (strcmp(op, "pval") == 0 && scheme)
+	{
+		err_t e = -1;
+		if (strcmp(scheme, "bign") == 0 || strcmp(scheme, "bign96") == 0)
+		{
+			bign_params* p = (bign_params*)xalloc(sizeof(bign_params)); loadBign(p, c);
+			e = strcmp(scheme, "bign") == 0 ? bignParamsVal(p) : bign96ParamsVal(p); free(p);
+		}
+		else if (strcmp(scheme, "g12s") == 0) { g12s_params* p = (g12s_params*)xalloc(sizeof(*p)); loadG12s(p, c); e = g12sParamsVal(p); free(p); }
+		else if (strcmp(scheme, "stb99") == 0) { stb99_params* p = (stb99_params*)xalloc(sizeof(*p)); loadStb99(p, c); e = stb99ParamsVal(p); free(p); }
+		else if (strcmp(scheme, "pfok") == 0) { pfok_params* p = (pfok_params*)xalloc(sizeof(*p)); loadPfok(p, c); e = pfokParamsVal(p); free(p); }
+		else if (strcmp(scheme, "dstu") == 0) { dstu_params* p = (dstu_params*)xalloc(sizeof(*p)); loadDstu(p, c); e = dstuParamsVal(p); free(p); }
+		jInt("rc", e);
+	}
+	else if (strcmp(op, "pubkeyVal") == 0 && scheme)
+	{
+		err_t e = -1; size_t len; octet* Q = vxHex(c, "Q", &len);
+		if (strcmp(scheme, "pfok") == 0) { pfok_params* p = (pfok_params*)xalloc(sizeof(*p)); loadPfok(p, c); e = pfokPubkeyVal(p, Q); free(p); }
+		else { bign_params* p = (bign_params*)xalloc(sizeof(*p)); loadBign(p, c); e = strcmp(scheme, "bign") == 0 ? bignPubkeyVal(p, Q) : bign96PubkeyVal(p, Q); free(p); }
+		free(Q); jInt("rc", e);
+	}
+	else if (strcmp(op, "keypairVal") == 0 && scheme)
+	{
+		err_t e; size_t l1, l2; octet* Q = vxHex(c, "Q", &l1); octet* d = vxHex(c, "d", &l2);
+		bign_params* p = (bign_params*)xalloc(sizeof(*p)); loadBign(p, c);
+		e = strcmp(scheme, "bign") == 0 ? bignKeypairVal(p, d, Q) : bign96KeypairVal(p, d, Q);
+		free(p); free(Q); free(d); jInt("rc", e);
+	}
+	else if (strcmp(op, "pubkeyCalc") == 0 && scheme)
+	{
+		/* generator aid: Q = dG computed by the library (judged by TLC on the value-oracle lines only) */
+		err_t e; size_t l2; octet* d = vxHex(c, "d", &l2); bign_params* p = (bign_params*)xalloc(sizeof(*p)); size_t no;
+		octet* Q;
+		loadBign(p, c); no = p->l == 96 ? 24 : p->l / 4; Q = (octet*)xalloc(2 * no); memset(Q, 0, 2 * no);
+		e = strcmp(scheme, "bign") == 0 ? bignPubkeyCalc(Q, p, d) : bign96PubkeyCalc(Q, p, d);
+		jOct("Qx", Q, no); jOct("Qy", Q + no, no); jInt("rc", e); free(Q); free(p); free(d);
+	}
+	else if (strcmp(op, "belsValM") == 0)
+	{
+		size_t len; octet* m = vxHex(c, "m", &len); jInt("rc", belsValM(m, len)); free(m);
+	}
+	else if (strcmp(op, "stb99SeedVal") == 0) { stb99_seed* s = (stb99_seed*)xalloc(sizeof(*s)); loadStb99Seed(s, c); jInt("rc", stb99SeedVal(s)); free(s); }
+	else if (strcmp(op, "stb99SeedAdj") == 0)
+	{
+		stb99_seed* s = (stb99_seed*)xalloc(sizeof(*s)); err_t e; loadStb99Seed(s, c); e = stb99SeedAdj(s);
+		jInt("rc", e); jU16s("ozi", s->zi, 31); jClipArr("odi", s->di, 18); jClipArr("ori", s->ri, 10); free(s);
+	}
+	else if (strcmp(op, "pfokSeedVal") == 0) { pfok_seed* s = (pfok_seed*)xalloc(sizeof(*s)); loadPfokSeed(s, c); jInt("rc", pfokSeedVal(s)); free(s); }
+	else if (strcmp(op, "pfokSeedAdj") == 0)
+	{
+		pfok_seed* s = (pfok_seed*)xalloc(sizeof(*s)); err_t e; loadPfokSeed(s, c); e = pfokSeedAdj(s);
+		jInt("rc", e); jU16s("ozi", s->zi, 31); jClipArr("oli", s->li, 20); free(s);
+	}
+	else if (strcmp(op, "isPrime") == 0)
+	{
+		/* a = number, n = length in words handed to priIsPrime (0: priIsPrimeW) */
+		size_t n = (size_t)vxInt(c, "n", 1);
+		if (n == 0) { word* a = numArg(c, "a", 1); jInt("res", isPrimeW(a[0])); free(a); }
+		else { word* a = numArg(c, "a", n); jInt("res", isPrimeN(a, n)); free(a); }
+		jInt("W", B_PER_W);
+	}
+	else if (strcmp(op, "rmTest") == 0)
+	{
+		size_t n = (size_t)vxInt(c, "n", 1); size_t iter = (size_t)vxInt(c, "iter", 0); word* a = numArg(c, "a", n);
+		void* st = xalloc(priRMTest_deep(n)); jInt("res", priRMTest(a, n, iter, st)); free(st); free(a);
+	}
+	else if (strcmp(op, "sgPrime") == 0)
+	{
+		size_t n = (size_t)vxInt(c, "n", 1); word* a = numArg(c, "a", n);
+		void* st = xalloc(priIsSGPrime_deep(n)); jInt("res", priIsSGPrime(a, n, st)); free(st); free(a);
+	}
+	else if (strcmp(op, "nextPrime") == 0)
+	{
+		size_t n = (size_t)vxInt(c, "n", 1); size_t bc = (size_t)vxInt(c, "base", 0); size_t iter = (size_t)vxInt(c, "iter", 32);
+		long long tr = vxInt(c, "trials", -1); word* a = numArg(c, "a", n); word* p = (word*)xalloc(O_OF_W(n));
+		void* st = xalloc(priNextPrime_deep(n, bc)); int r = 0;
+		memset(p, 0, O_OF_W(n));
+		if (n == 0) { free(p); p = (word*)xalloc(sizeof(word)); p[0] = 0; free(st); st = xalloc(priNextPrimeW_deep()); GUARDED(20, r = priNextPrimeW(p, a[0], st), hung); putNum("p", p, 1); }
+		else { GUARDED(60, r = priNextPrime(p, a, n, tr < 0 ? SIZE_MAX : (size_t)tr, bc, iter, st), hung); putNum("p", p, n); }
+		jInt("found", r); jInt("hang", hung); jInt("W", B_PER_W);
+		if (!hung) { free(st); free(p); free(a); }
+	}
+	else if (strcmp(op, "sieved") == 0 || strcmp(op, "smooth") == 0)
+	{
+		size_t n = (size_t)vxInt(c, "n", 1); size_t bc = (size_t)vxInt(c, "base", 0); word* a = numArg(c, "a", n); int r = 0;
+		if (bc > priBaseSize()) bc = priBaseSize();
+		if (op[1] == 'i') { void* st = xalloc(priIsSieved_deep(bc)); r = priIsSieved(a, n, bc, st); free(st); }
+		else { void* st = xalloc(priIsSmooth_deep(n)); GUARDED(5, r = priIsSmooth(a, n, bc, st), hung); if (!hung) free(st); }
+		jInt("res", r); jInt("hang", hung); jInt("baseSize", (long long)priBaseSize());
+		free(a);
+	}
+	else if (strcmp(op, "basePrimes") == 0)
+	{
+		size_t i, cnt = priBaseSize(); jInt("size", (long long)cnt); jSep(); fprintf(vx_out, "\"primes\":[");
+		for (i = 0; i < cnt; ++i) fprintf(vx_out, i ? ",%llu" : "%llu", (unsigned long long)priBasePrime(i));
+		fputc(']', vx_out);
+	}
+	else if (strcmp(op, "ppIrred") == 0)
+	{
+		size_t n = (size_t)vxInt(c, "n", 1); word* a = numArg(c, "a", n); void* st = xalloc(ppIsIrred_deep(n));
+		jInt("res", ppIsIrred(a, n, st)); free(st); free(a);
+	}
+	else if (strcmp(op, "onA") == 0)
+	{
+		/* complete tiny curve y^2 = x^3 + A x + B over GF(p): every (x, y) in [0, 2^bits)^2 through the range test
+		   (qrFrom) and the curve-equation test (ecpIsOnA), as bignPubkeyVal combines them; one result row per x */
+		size_t pl; octet* po = vxHex(c, "p", &pl); size_t bits = (size_t)vxInt(c, "bits", 5); size_t x0 = (size_t)vxInt(c, "x", 0);
+		size_t no = pl, n = W_OF_O(no), y, lim = (size_t)1 << bits;
+		size_t f_keep = gfpCreate_keep(no), f_deep = gfpCreate_deep(no), ec_keep = ecpCreateJ_keep(n), ec_deep = ecpCreateJ_deep(n, f_deep);
+		qr_o* f = (qr_o*)xalloc(f_keep); ec_o* ec = (ec_o*)xalloc(ec_keep);
+		size_t sd = utilMax(3, f_deep, ec_deep, ecpIsOnA_deep(n, f_deep)); void* st = xalloc(sd);
+		octet* A = (octet*)xalloc(no); octet* B = (octet*)xalloc(no); octet* xo = (octet*)xalloc(no); octet* yo = (octet*)xalloc(no);
+		word* pt = (word*)xalloc(O_OF_W(2 * n));
+		fld(A, no, c, "A"); fld(B, no, c, "B");
+		if (!gfpCreate(f, po, no, st) || !ecpCreateJ(ec, f, A, B, st)) jInt("rc", -1);
+		else
+		{
+			size_t j;
+			jResBegin("res");
+			for (y = 0; y < lim; ++y)
+			{
+				int ok;
+				for (j = 0; j < no; ++j) xo[j] = (octet)(x0 >> (8 * j)), yo[j] = (octet)(y >> (8 * j));
+				ok = qrFrom(ecX(pt), xo, f, st) && qrFrom(ecY(pt, n), yo, f, st) && ecpIsOnA(pt, ec, st);
+				jResPut(y, ok ? 1 : 0);
+			}
+			jResEnd(); jInt("rc", 0);
+		}
+		free(pt); free(yo); free(xo); free(B); free(A); free(st); free(ec); free(f); free(po);
+	}
+	else jInt("unknown", 1);
+	jEnd();
+	fflush(vx_out);
+	(void)hung;
+}
+
+static void doExec(void)
+{
+	char* line = 0; size_t cap = 0; vx_cmd c;
+	while (getline(&line, &cap, stdin) > 0)
+		if (vxParse(&c, line)) doExecLine(&c);
+	free(line);
+}
+
+static int want(int argc, char** argv, const char* fam)
+{
+	int i; if (argc <= 3) return 1;
+	for (i = 3; i < argc; ++i) if (strcmp(argv[i], fam) == 0) return 1;
+	return 0;
+}
+
 int main(int argc, char** argv)
 {
 	signal(SIGALRM, on_alarm);
 	vxSeed(vxEnvSeed());
+	(void)PRI_W16;
 	if (argc >= 2 && strcmp(argv[1], "std") == 0) { doStd(); return 0; }
-	fprintf(stderr, "usage: drv_valid std | record <quick|thorough> [families] | exec\n");
-	(void)THOROUGH; (void)xalloc;
+	if (argc >= 2 && strcmp(argv[1], "exec") == 0) { doExec(); return 0; }
+	if (argc >= 3 && strcmp(argv[1], "record") == 0)
+	{
+		THOROUGH = strcmp(argv[2], "thorough") == 0;
+		if (want(argc, argv, "date")) recDate();
+		if (want(argc, argv, "pri")) recPri();
+		if (want(argc, argv, "pp")) recPP();
+		return 0;
+	}
+	fprintf(stderr, "usage: drv_valid std | record <quick|thorough> [date pri pp] | exec\n");
 	return 2;
 }
